@@ -80,6 +80,15 @@ def run(chk):
         plt.close("all")
         cm = core.call_real(lambda: pl.seqlogos(seqs)[1] if len(set(map(len, seqs))) == 1 else None)
         plt.close("all")
+        if len(set(map(len, seqs))) == 1:
+            if cm[0] != "ok":
+                chk.violation(f"C19|seqlogos|raises-{cm[1]}", f"seqlogos raised {cm[1]} on equal-length sequences (no alignment is needed)", {"seqs": seqs})
+            # with an axes object handed in: drawn there, same count matrix
+            fig_l, ax_l = plt.subplots()
+            cm2 = core.call_real(lambda: pl.seqlogos(seqs, ax_l))
+            if cm2[0] != "ok" or cm2[1][0] is not ax_l or (cm[0] == "ok" and not cm2[1][1].equals(cm[1])):
+                chk.violation("C19|seqlogos|given-axes", f"seqlogos(seqs, ax) does not draw on the given axes / returns another count matrix: {str(cm2)[:120]}", {"seqs": seqs})
+            plt.close("all")
         ops += [{"op": "seqs_to_regex", "order": order, "seqs": seqs}, {"op": "seqs_to_consensus", "order": order, "seqs": seqs},
                 {"op": "count_matrix", "order": order, "seqs": seqs}]
         metas.append((seqs, order, rx, cons, cm))
@@ -134,11 +143,14 @@ def run(chk):
 
     # ---- rankfrequency
     ops, metas = [], []
-    for _ in range(25 if not thorough else 250):
-        data = [rng.choice([1, 2, 3, 5, 8, 13, 40, None]) for _ in range(rng.randint(1, 12))]
-        if all(d is None for d in data):
+    for it_rf in range(25 if not thorough else 250):
+        data = [rng.choice([1, 2, 3, 5, 8, 13, 40, None, 0]) for _ in range(rng.randint(1, 12))]
+        forced_uint = it_rf < 4          # every run: unsigned count vectors with zeros, drawn as sizes (not frequencies)
+        if forced_uint:
+            data = [rng.choice([0, 0, 1, 2, 3, 7, 40]) for _ in range(rng.randint(3, 9))] + [0, 5]
+        if all(d is None or d == 0 for d in data):
             data[0] = 4
-        nx, ny = rng.random() < 0.5, rng.random() < 0.5
+        nx, ny = rng.random() < 0.5 and not forced_uint, rng.random() < 0.5
         sx, sy = rng.choice([1.0, 2.0, 0.5]), rng.choice([1.0, 3.0])
         lx, ly = rng.random() < 0.5, rng.random() < 0.5
         tx, ty = rng.choice([None, "plus1", "double"]), rng.choice([None, "plus1", "double"])
@@ -151,8 +163,11 @@ def run(chk):
         arr = [float("nan") if d is None else d for d in data]
         if rng.random() < 0.3:
             arr = pd.Series(arr, index=rng.sample(range(50), len(arr)))
+        elif all(d is not None for d in data) and (forced_uint or rng.random() < 0.6):
+            # count vectors as NumPy integer arrays of any width, signed or unsigned (zeros included)
+            arr = np.array(data, dtype=rng.choice([np.uint8, np.uint16, np.uint32, np.uint64] + ([] if forced_uint else [np.int8, np.int64])))
         kw = dict(normalize_x=nx, normalize_y=ny, scalex=sx, scaley=sy, log_x=lx, log_y=ly, transform_x=tf[tx], transform_y=tf[ty])
-        if rng.random() < 0.3:                          # defaults: normalize_x, not normalize_y, both axes logarithmic
+        if rng.random() < 0.3 and not forced_uint:      # defaults: normalize_x, not normalize_y, both axes logarithmic
             for k_ in ("normalize_x", "normalize_y", "log_x", "log_y"):
                 del kw[k_]
             nx, ny, lx, ly = True, False, True, True
@@ -241,7 +256,13 @@ def run(chk):
         if rng.random() < 0.3:
             dkw["s"] = 7
         xin, yin = (np.array(x), pd.Series(y, index=rng.sample(range(40), n))) if rng.random() < 0.4 else (x, y)
-        real = core.call_real(lambda: pl.density_scatter(xin, yin, ax=ax, discrete=True, **dkw))
+        if rng.random() < 0.3:
+            # no axes given: the current axes (the ones just created) are drawn on and returned
+            real = core.call_real(lambda: pl.density_scatter(xin, yin, discrete=True, **dkw))
+            if real[0] == "ok" and real[1] is not ax:
+                chk.violation("C19|density_scatter|current-axes", "density_scatter without ax does not draw on / return the current axes", {"x": x, "y": y})
+        else:
+            real = core.call_real(lambda: pl.density_scatter(xin, yin, ax=ax, discrete=True, **dkw))
         chk.case(nontrivial_key=("scatter", tuple(x), tuple(y)))
         chk.count("density_scatter")
         if real[0] != "ok":
@@ -272,9 +293,9 @@ def run(chk):
         al = [gen.mutate(rng, rng.choice(roots), "ACDEQ", rng.randint(0, 2)) or "C" for _ in range(n)]
         be = [gen.mutate(rng, rng.choice(roots), "ACDEQ", rng.randint(0, 2)) or "C" for _ in range(n)]
         metav = [rng.choice("xy") for _ in range(n)]
-        ca, cb = rng.choice([("cdr3a", "cdr3b"), ("alpha_seq", "second"), ("A", "B")])
+        ca, cb = rng.choice([("cdr3a", "cdr3b"), ("alpha_seq", "second"), ("A", "B"), (0, 1), (1, 0)]) if t >= 2 else ((0, 1), (1, 0))[t]
         df = pd.DataFrame({ca: al, cb: be, "meta": metav, "other": [rng.choice("pq") for _ in range(n)]}, index=rng.sample(range(100), n))
-        single = rng.choice([None, None, "alpha", "beta"])
+        single = rng.choice([None, None, "alpha", "beta"]) if isinstance(ca, str) else None      # (integer column labels: paired form only)
         kws = {}
         if (ca, cb) != ("cdr3a", "cdr3b") or single:
             kws = dict(alpha_column=ca, beta_column=cb)
@@ -322,6 +343,11 @@ def run(chk):
         upper = squareform(dist if single else db).astype(int).tolist()
         a = core.run_driver([{"op": "split_matrix", "lower": lower, "upper": upper, "ind": ind}])[0]
         got = np.asarray(cg.data2d).astype(int).tolist()
+        meshes = [c_ for c_ in cg.ax_heatmap.collections if hasattr(c_, "get_array") and c_.get_array() is not None]
+        drawn = np.asarray(meshes[0].get_array()).reshape(n, n).astype(int).tolist() if meshes and np.asarray(meshes[0].get_array()).size == n * n else None
+        if drawn != a[1]:
+            chk.violation("C19|similarity_clustermap|heatmap-drawn", "the heat map drawn on ax_heatmap (its QuadMesh) does not show alpha distances below and beta "
+                          "distances above the diagonal in dendrogram order", {**meta, "ind": ind, "drawn": drawn, "model": a[1]})
         if got != a[1]:
             chk.violation("C19|similarity_clustermap|heatmap", "the heat map does not show alpha distances below and beta distances above the "
                           "diagonal in dendrogram order", {**meta, "ind": ind, "real": got, "model": a[1]})
